@@ -2,7 +2,7 @@
 conformance traces (driver + trace specification) decide each property."""
 import json
 import random
-from core import MC, Shard
+from core import MC, Shard, Apa
 import drv_calendar
 import drv_computus
 import drv_leap
@@ -47,6 +47,16 @@ def _year_windows(tier, seed):
     return fixed + extra
 
 
+def _cal_apa(tier, which):
+    """symbolic complement of the chain walk: the inductive invariant of Apa_Calendar for every year >= -4712"""
+    A = [Apa("Apa_Calendar", "Init", "IndInv", 0, note="base: the first civil day (-4712-01-01, JDN 0, Monday) satisfies IndInv"),
+         Apa("Apa_Calendar", "IndInit", "IndInv", 1, note="step: NextDay preserves IndInv from ANY state satisfying it (years unbounded above)")]
+    if tier == "thorough":
+        cons = {"C01": ["Fwd", "Jan1Closed", "YearEnd"], "C16": ["GregorianDow", "LeapRule", "YearEnd"]}[which]
+        A += [Apa("Apa_Calendar", "IndInit", inv, 0, note="IndInv implies %s for every year >= -4712" % inv) for inv in cons]
+    return A
+
+
 def _cal_mc(windows):
     return [MC("MC_Calendar", "MC_Calendar.cfg", workers=1, heap="2g",
                env={"CAL_Y0": str(a), "CAL_Y1": str(b)}, note="civil days %d..%d" % (a, b))
@@ -66,7 +76,7 @@ def _nt_day(ev):
 def plan_C01(tier, seed):
     w = _year_windows(tier, seed)
     return dict(
-        mc=_cal_mc(w),
+        mc=_cal_mc(w) + _cal_apa(tier, "C01"),
         shards=[Shard("c01_%+05d_%+05d" % (a, b), drv_calendar.gen_c01, dict(y0=a, y1=b),
                       "Trace_Calendar", "Trace.cfg") for (a, b) in w],
         level="model_checking", exhaustive=(tier == "thorough"),
@@ -88,7 +98,7 @@ def plan_C16(tier, seed):
     nsid = 16
     per = 400 if tier == "quick" else 6500
     return dict(
-        mc=_cal_mc(w),
+        mc=_cal_mc(w) + _cal_apa(tier, "C16"),
         shards=[Shard("c16_%+05d_%+05d" % (a, b), drv_calendar.gen_c16, dict(y0=a, y1=b),
                       "Trace_Calendar", "Trace.cfg") for (a, b) in w]
                + [Shard("sid_%02d" % i, drv_calendar.gen_sidereal, dict(seed=seed, n=per, shard=i, nshards=nsid),
@@ -702,6 +712,8 @@ def plan_C20(tier, seed):
     parts, reps, passes = (14, 3, 2) if tier == "quick" else (16, 20, 4)
     sh = [Shard("api_%02d" % i, drv_api.gen_calls, dict(seed=seed, part=i, parts=parts, reps=reps, with_ill=True, passes=passes), *T)
           for i in range(parts)]
+    sh += [Shard("nbr_%02d" % i, drv_api.gen_neighbours, dict(seed=seed + 1000 * r, part=i, parts=parts), *T)
+           for i in range(parts) for r in range(1 if tier == "quick" else 4)]
     sh += _heap_shards("angle", tier, seed, 2) + _heap_shards("epoch", tier, seed, 1)
     return dict(
         mc=[MC("MC_ObjHeap", "MC_ObjHeap_angle.cfg", workers=1, heap="3g", env={"HEAP_DEPTH": "2"},
